@@ -725,7 +725,7 @@ SUBS = [
         "history",
         check_history,
         strategy=history,
-        examples={"quick": 400, "thorough": 3000},
+        examples={"quick": 800, "thorough": 3000},
         shards={"quick": 16, "thorough": 16},
     ),
 ]
